@@ -341,10 +341,27 @@ func Equal(p1, p2 Ptr) (bool, error) {
 		if l1.Len() != l2.Len() {
 			return false, nil
 		}
-		if l1.flags&isCompositeList == 0 && l2.flags&isCompositeList == 0 && l1.size != l2.size {
+		bit1, bit2 := l1.flags&isBitList != 0, l2.flags&isBitList != 0
+		if l1.flags&isCompositeList == 0 && l2.flags&isCompositeList == 0 && (l1.size != l2.size || bit1 != bit2) {
 			return false, nil
 		}
-		if l1.size.PointerCount == 0 && l2.size.PointerCount == 0 && l1.size.DataSize == l2.size.DataSize {
+		if bit1 && bit2 {
+			// Bit lists have a zero element size: compare the bits,
+			// ignoring the unused bits of the last byte.
+			n := l1.length
+			b1 := l1.seg.slice(l1.off, bitListSize(n))
+			b2 := l2.seg.slice(l2.off, bitListSize(n))
+			full := int(n / 8)
+			if !bytes.Equal(b1[:full], b2[:full]) {
+				return false, nil
+			}
+			if rem := uint(n % 8); rem != 0 {
+				mask := byte(1)<<rem - 1
+				return b1[full]&mask == b2[full]&mask, nil
+			}
+			return true, nil
+		}
+		if !bit1 && !bit2 && l1.size.PointerCount == 0 && l2.size.PointerCount == 0 && l1.size.DataSize == l2.size.DataSize {
 			// Optimization: pure data lists can be compared bytewise.
 			sz, _ := l1.size.totalSize().times(l1.length) // both list bounds have been validated
 			return bytes.Equal(l1.seg.slice(l1.off, sz), l2.seg.slice(l2.off, sz)), nil
